@@ -91,6 +91,8 @@ type verifC19Req struct {
 	Status  int
 	Elapsed int64 // ms
 	Hits    int64 // requests the upstream received for this client request
+	// the first observation was more than a second beyond the upstream's delay and the request was repeated
+	Remeasured bool
 }
 
 type verifC19Out struct {
@@ -204,19 +206,33 @@ func TestVerifC19(t *testing.T) {
 	client := &http.Client{Timeout: 30 * time.Second}
 	for _, path := range []string{"/plain", "/skipverify", "/override"} {
 		for _, d := range in.Delays {
-			before := atomic.LoadInt64(&hits)
-			start := time.Now()
-			resp, err := client.Get(fmt.Sprintf("http://%s%s?delay=%d", proxyAddr, path, d))
-			rq := verifC19Req{Path: path, DelayMs: d, Status: -1}
-			if err == nil {
-				io.Copy(io.Discard, resp.Body)
-				resp.Body.Close()
-				rq.Status = resp.StatusCode
+			do := func() verifC19Req {
+				before := atomic.LoadInt64(&hits)
+				start := time.Now()
+				resp, err := client.Get(fmt.Sprintf("http://%s%s?delay=%d", proxyAddr, path, d))
+				rq := verifC19Req{Path: path, DelayMs: d, Status: -1}
+				if err == nil {
+					io.Copy(io.Discard, resp.Body)
+					resp.Body.Close()
+					rq.Status = resp.StatusCode
+				}
+				rq.Elapsed = time.Since(start).Milliseconds()
+				// a request the proxy has given up on may still be running in the upstream
+				time.Sleep(30 * time.Millisecond)
+				rq.Hits = atomic.LoadInt64(&hits) - before
+				return rq
 			}
-			rq.Elapsed = time.Since(start).Milliseconds()
-			// a request the proxy has given up on may still be running in the upstream
-			time.Sleep(30 * time.Millisecond)
-			rq.Hits = atomic.LoadInt64(&hits) - before
+			rq := do()
+			// No request, served or given up, takes longer than the upstream's own delay: an observation a
+			// second beyond it is a stall of the machine and is measured once more (a defect that holds
+			// the client shows again); the faster of the two observations is reported.
+			if rq.Elapsed > d+1000 {
+				time.Sleep(time.Duration(d) * time.Millisecond) // let the abandoned upstream handler finish: hits are counted per request
+				if again := do(); again.Elapsed < rq.Elapsed {
+					rq = again
+				}
+				rq.Remeasured = true
+			}
 			out.Reqs = append(out.Reqs, rq)
 		}
 	}
